@@ -39,6 +39,12 @@ def obligations(tier):
                           api=True))
     obs += lex_obs("C17", "c_kw", ["seq_options", "seq_options2", "seq_after_cache"], tier, "lex")
     obs += lex_obs("C17", "c_case", ["seq_options", "seq_options2"], tier, "lexcase")
+    from harness_names import SEQ_NAMES_DOC
+    for n1, nm in enumerate(SEQ_NAMES_DOC):
+      obs.append(Ob(f"C17.pipe/sequence-pairs/first={nm}", "pipe", "c_seq_pair", {"VF_SEQ_N1": n1, "VF_SEQ_QUICK": 1 if tier == "quick" else 0}, 400 if tier == "quick" else 1800,
+                  ["whole pipeline (harness/pipe.py): pre-processor, lexer, LALR driver, p_expression_seq / p_seq_name, Output.format"],
+                  f"two CREATE SEQUENCE statements: first name {nm}, second any of 9 (differing only in case / quoting / schema, or distinct), first option set any of 6, second any of "
+                  f"{'3' if tier == 'quick' else '6'}, between them nothing or a table of the same name{'' if tier == 'quick' else ' (two variants)'} - symbolic: script result == concatenation of the results alone"))
     return obs
 
 
